@@ -39,7 +39,8 @@ Shapes == <<
   KwShape,
   ColShape("0", ""), ColShape("0", ".5"), ColShape("0", ".0"), ColShape("f", ""), ColShape("f", "."), ColShape("fa", ""),
   ColShape("1a", ".25"), ColShape("fa0", ""), ColShape("fc0", ".5"), ColShape("0a0b0c", ""), ColShape("e7bc0b", ""),
-  ColShape("ffffff", ""), ColShape("ffffff", ".0"), ColShape("a0", "") >>
+  ColShape("ffffff", ""), ColShape("ffffff", ".0"), ColShape("a0", ""),
+  ColShape("ffcc01", ""), ColShape("ff01cc", ""), ColShape("01ffcc", ""), ColShape("aab1cc", ".5") >>
 Keys == << [key |-> "p",  prop |-> "padding",     unitless |-> FALSE, takes |-> "num"],
            [key |-> "m",  prop |-> "margin",      unitless |-> FALSE, takes |-> "num"],
            [key |-> "z",  prop |-> "z-index",     unitless |-> TRUE,  takes |-> "num"],
